@@ -20,7 +20,24 @@ added here, so that a rule can speak about *what is computed* and not about how 
   * numpy spellings are canonical: function vs method form (`np.any(x, axis=0)` / `x.any(axis=0)`), `np.logical_not/or/and` vs `~ | &`,
     `np.square`, `np.abs`, `np.transpose / .T`, `np.dot / @`, `np.hstack / np.concatenate`, `x.nonzero()[0] / np.flatnonzero(x)`,
     `np.size(X, k) / X.shape[k]`, `np.arange(n) + 1 / np.arange(1, n + 1)`, `slice(a, b)` vs `a:b`, trailing `:` in an index,
-    `%` / `.format` / f-strings are opaque texts that carry the values of their fields.
+    `%` / `.format` / f-strings are opaque texts that carry the values of their fields;
+  * (third pass) one value for every spelling of a length (`len(x)`, `x.shape[0]`, `np.size(x, 0)`, `np.shape(x)[0]`, `x.size` of a flattened
+    vector -> dim(x, 0)); an array created with a stated shape has that shape, a selection by integer index vectors has their lengths
+    (`Facts.intvec`: the rule says which parameters are index vectors); constants of math / numpy fold (`math.tau` is 2 pi) whatever the import
+    spelling, members of modules used as values go by their canonical dotted name (`from collections.abc import MutableMapping`); function forms
+    of the operators (`np.negative`, `np.multiply`, `operator.*`), `np.diagonal` of a matrix, `np.take`, `np.append`, `[*a, *b]`,
+    `np.setdiff1d(np.arange(n), pv)` / an all-true mask cleared at pv and asked for its positions (= locate.flippv(pv, n)),
+    `np.isin(np.arange(n), pv)` (= locate.index2bool(pv, n)); index canonical forms: `X[r[:, None], c]` = `X[np.ix_(r, c)]`,
+    `X.T[r]` = `X[:, r].T`, `X[:, c][r]` = `X[r, c]` for a slice, `X[..., c]` with a stated number of axes, positions of a mask select what the mask
+    selects, `(c X^n)[i]` = `c X[i]^n`; masks in negation normal form (`~(a | b)`, `~(x == y)`, `(X == 0).all(axis)`);
+  * tests: `mask.all()` / `mask.any()` / counts of true entries (`np.count_nonzero(m) > 0`, `m.sum() == len(m)`) are one question, a truth value
+    compared with True / False, tuples compared element by element, `X.shape[k:]` when the facts state the number of axes, `bool(x)`;
+    `Facts.keys`: what a mapping the function is handed holds - `m[k]` of an absent key raises KeyError, which unwinds to the enclosing
+    `try` / `with suppress` of the evaluated code (or ends the function), `k in m`, `m.get(k)` follow; `match` statements are if / elif chains;
+  * callables are values: lambdas called on the spot, `functools.partial`, bound methods held in a name (`write = f.write`), functions held in a
+    local or module-level name, `map(f, seq)`, generator functions (the tuple of what they yield), `*args` / `**kwargs` of followed functions;
+    `print(..., file=f)` and `f.writelines([...])` are `f.write`; `np.put` on a one-dimensional array, `operator.setitem`, `X.__setitem__` are
+    stores; a name bound to a parameter or to an attribute of one (`rows = uset.iloc`) is an alias of that object.
 
 Nothing of /repo is imported or executed."""
 from __future__ import annotations
@@ -1662,10 +1679,19 @@ class CBEval(AutoEvaluator):
                 t = self.facts.lookup_truth(F.fn("call:." + ("any" if q[0] == "all" else "all"), _invert(q[1])))
                 if t is not None:
                     return not t
+                # (~index2bool(pv, n)).any(): is the complement of pv in range(n) non-empty - the sign of len(flippv(pv, n))
+                c = _complement_of_membership(q[1] if q[0] == "any" else _invert(q[1]))
+                if c is not None:
+                    sg = self.facts.lookup_sign(self.length(c))
+                    if sg is not None:
+                        return (sg != "zero") if q[0] == "any" else (sg == "zero")
             if nm in ("dim", "attr:size") and (nm != "dim" or eq(args[1], F.const(0))):
                 sg = self.facts.lookup_sign(v)
                 if sg is not None:
                     return sg != "zero"
+            cnt = _count_of(v)
+            if cnt is not None:
+                return self.decide_value(F.fn("call:.any", cnt))          # a count of true entries is true when there is one: mask.any()
         sg = self.facts.lookup_sign(v)
         if sg is not None:
             return sg != "zero"
@@ -2375,11 +2401,26 @@ def _mask_of_positions(v):
         return v
     u = unfn(v)
     if u is not None and u[0] == "nonzero0" and len(u[1]) == 1 and _is_mask(u[1][0]):
-        return u[1][0]
+        return _mask_of_positions(u[1][0])
+    c = _complement_of_membership(v)
+    if c is not None:
+        return c
     sc = split_call(v)
     if sc is not None and sc[0] == "np.ix_" and not sc[2] and any(is_rat(x) and _mask_of_positions(x) is not x for x in sc[1]):
         return F.fn("call:np.ix_", *[_mask_of_positions(x) for x in sc[1]])
     return v
+
+
+def _complement_of_membership(v):
+    """~locate.index2bool(pv, n) - the mask of the positions of range(n) that are not in pv - selects, as an index, exactly the ascending positions
+    locate.flippv(pv, n) returns: -> that value, else None"""
+    u = unfn(v) if is_rat(v) else None
+    if u is None or u[0] != "invert":
+        return None
+    sc = split_call(u[1][0])
+    if sc is None or sc[0] != "locate.index2bool" or len(sc[1]) != 2 or sc[2]:
+        return None
+    return F.fn("call:locate.flippv", sc[1][0], sc[1][1])
 
 
 def _is_slice(v):
